@@ -7,7 +7,8 @@ mkdir -p work/seeded_runs
 for id in $ids; do
   prop=${id:0:3}
   out=work/seeded_runs/$id.txt
-  tools/with_patch.sh /verif/seeded/$id/patch.diff -- ./vcheck $prop --tier quick > $out 2>&1
+  rev=$(python3 -c "import json;print(json.load(open('seeded/$id/meta.json')).get('revert_first',''))" 2>/dev/null)
+  WITH_PATCH_REVERT="$rev" tools/with_patch.sh /verif/seeded/$id/patch.diff -- ./vcheck $prop --tier quick > $out 2>&1
   rc=$?
   keys=$(grep -E "^VIOLATION" $out | sed 's/.*(\(.*\), [0-9]* occurrence.*/\1/' | head -4 | tr '\n' ';')
   if [ $rc = 1 ] && [ -n "$keys" ]; then echo "$id CAUGHT $keys"; else echo "$id MISSED rc=$rc"; fi
